@@ -1,6 +1,7 @@
 package main
 
 import (
+	"os"
 	"bytes"
 	"crypto/sha256"
 	"encoding/json"
@@ -467,6 +468,9 @@ func checkReverts(o *Observed) []Finding {
 					want = append(want, PostingJ{p.Destination, p.Source, p.Amount.String(), p.Asset})
 				}
 				got := postingsJ(d.RevertTransaction.Postings)
+				if os.Getenv("VERIF_DEBUG") != "" {
+					fmt.Fprintln(os.Stderr, "REVERT", target, postingsJ(orig.Tx.Postings), "->", got)
+				}
 				if !reflect.DeepEqual(want, got) {
 					out = append(out, Finding{"revert-is-not-the-exact-inverse", fmt.Sprintf("original %s postings %v; revert postings %v; expected %v", target, postingsJ(orig.Tx.Postings), got, want)})
 				}
